@@ -22,6 +22,7 @@ import CLModel.Proofs.C03Sess
 import CLModel.Proofs.C03SessCmp
 import CLModel.Proofs.C03Ftl
 import CLModel.Proofs.C03Val
+import CLModel.Proofs.C03Hist
 namespace C03
 open Cmp AR
 
@@ -615,6 +616,110 @@ example : ∀ r, compareEntities [⟨.str [97], false, 1, 1, 0⟩, ⟨.str [98],
   intro r h
   obtain ⟨s, hs, _, _, _, _, hsum⟩ := duplicates_same_key_sequence _ _ (by decide) r h
   exact ⟨s, hs, by rw [hsum]; decide⟩
+
+/-! ### (F) round 5: ONE PROCESS — a job's report is independent of every earlier job, of any format, on any comparer
+
+`Sess.Proc` = the interpreter: the live `ContentComparer`s (each one its `ObserverList`) and the process-wide memo — a state
+component WITHOUT content, because at the pinned commit no class attribute, module global or cache is read or written by
+`compare` / `add` / `remove` (`Entry.count_words`, `val`, `equals` are recomputed from the entity, `AddRemove` is created per
+comparison).  `Sess.Proc.step ext p c j` = the call `j` on comparer `c`; `Sess.Proc.run` = a history of such calls.
+`C03H.Same a b` = the two observer lists were configured alike (same filters), whatever they have accumulated. -/
+
+open ObsM in
+/-- HISTORY FREEDOM.  Let `q` be the process after ANY history of calls (of files of any formats, on any comparers) from `p`.
+    The same call `j` on comparer `c` in `p` and in `q`, when both return:
+    * decides the same about the merge file,
+    * is the SAME block `evs` of notifications (category, file, data — i.e. the same missing / obsolete strings, warnings and
+      errors, in the same order) and `updateStats` pushes (the same nine counters and word sums) towards the observers,
+    * so what it adds to every counter of every locale — of the list and of each project observer — is the same
+      (`new₁ + old₀ = new₀ + old₁`), and
+    * the process-wide memo is what it was (there is nothing in it to consult).
+    False for a code base in which `count_words` / `val` / `equals` / the diff consult a table filled by earlier calls. -/
+theorem job_result_history_free (ext : Pipe.Ext) (p q : Sess.Proc) (hist : List (Nat × Sess.Job)) (outs : List Merge.Outcome)
+    (hrun : Sess.Proc.run ext p hist = .ok (q, outs)) (c : Nat) (j : Sess.Job) (p' q' : Sess.Proc) (o o' : Merge.Outcome)
+    (h0 : Sess.Proc.step ext p c j = .ok (p', o)) (h1 : Sess.Proc.step ext q c j = .ok (q', o')) :
+    o' = o ∧ q.memo = p.memo ∧ q'.memo = p'.memo ∧
+    ∃ (l0 l0' l1 l1' : ObsList) (evs : List Ev),
+      p.comparers[c]? = some l0 ∧ p'.comparers[c]? = some l0' ∧ q.comparers[c]? = some l1 ∧ q'.comparers[c]? = some l1' ∧
+      C03S.Tr l0 l0' evs ∧ C03S.Tr l1 l1' evs ∧
+      (l0.own.filter = none →
+        (∀ L key, getCount l1'.own.summary L key + getCount l0.own.summary L key =
+                  getCount l0'.own.summary L key + getCount l1.own.summary L key) ∧
+        (∀ (i : Nat) (x0 x0' x1 x1' : Obs), l0.observers[i]? = some x0 → l0'.observers[i]? = some x0' → l1.observers[i]? = some x1 →
+          l1'.observers[i]? = some x1' → ∀ L key,
+            getCount x1'.summary L key + getCount x0.summary L key = getCount x0'.summary L key + getCount x1.summary L key)) := by
+  obtain ⟨hm, hf⟩ := C03H.run_frame ext hist hrun
+  obtain ⟨ho, l0, l0', l1, l1', e1, e2, e3, e4, j0, j1, hs⟩ := C03H.step_sim ext (hf c) h0 h1
+  have hab : C03H.Same l0 l1 := by
+    have := hf c
+    unfold C03H.SameAt at this
+    simpa [e1, e3] using this
+  have m0 := (C03H.step_frame ext h0).1
+  have m1 := (C03H.step_frame ext h1).1
+  obtain ⟨hsame, evs, t0, t1⟩ := hs
+  refine ⟨ho, hm, by rw [m1, m0, hm], l0, l0', l1, l1', evs, e1, e2, e3, e4, t0, t1, ?_⟩
+  intro hown
+  have hs' : C03H.Sim l0 l0' l1 l1' := ⟨hsame, evs, t0, t1⟩
+  refine ⟨?_, ?_⟩
+  · intro L key
+    have := C03H.sim_counts hab hs' hown L key
+    omega
+  · intro i x0 x0' x1 x1' a1 a2 a3 a4 L key
+    have := C03H.sim_observer_counts hab hs' hown i x0 x0' x1 x1' a1 a2 a3 a4 L key
+    omega
+
+open ObsM in
+/-- The form the harness tests (cross-format histories against a fresh worker process): in a process that started FRESH
+    (`cfgs` = quiet level and project filters of each comparer), after any history, a call adds to every counter of the list
+    exactly what the same call reports as the FIRST call of a fresh process with the same comparers. -/
+theorem job_counts_as_in_fresh_process (ext : Pipe.Ext) (cfgs : List (Nat × List (Option Filter))) (q : Sess.Proc)
+    (hist : List (Nat × Sess.Job)) (outs : List Merge.Outcome) (hrun : Sess.Proc.run ext (Sess.Proc.fresh cfgs) hist = .ok (q, outs))
+    (c : Nat) (j : Sess.Job) (p' q' : Sess.Proc) (o o' : Merge.Outcome)
+    (h0 : Sess.Proc.step ext (Sess.Proc.fresh cfgs) c j = .ok (p', o)) (h1 : Sess.Proc.step ext q c j = .ok (q', o')) :
+    o' = o ∧ ∃ (lf l1 l1' : ObsList), p'.comparers[c]? = some lf ∧ q.comparers[c]? = some l1 ∧ q'.comparers[c]? = some l1' ∧
+      ∀ L key, getCount l1'.own.summary L key = getCount l1.own.summary L key + getCount lf.own.summary L key := by
+  obtain ⟨ho, _, _, l0, l0', l1, l1', evs, e1, e2, e3, e4, _, _, hc⟩ := job_result_history_free ext _ q hist outs hrun c j p' q' o o' h0 h1
+  refine ⟨ho, l0', l1, l1', e2, e3, e4, ?_⟩
+  simp only [Sess.Proc.fresh, List.getElem?_map] at e1
+  cases hcfg : cfgs[c]? with
+  | none => rw [hcfg] at e1; cases e1
+  | some cfg =>
+    rw [hcfg] at e1
+    simp only [Option.map_some, Option.some.injEq] at e1
+    subst e1
+    intro L key
+    have := (hc rfl).1 L key
+    have hz : getCount (ObsList.init cfg.1 (cfg.2.map (Obs.init cfg.1))).own.summary L key = 0 := rfl
+    rw [hz] at this
+    omega
+
+/-- non-vacuity: a process with two comparers; a `.properties`-like missing file on comparer 0, a DTD-like one on comparer 1,
+    then the first job again on comparer 0: the third call adds what the first added (3 strings, 5 words), the memo is `empty`. -/
+example : (match Sess.Proc.run default (Sess.Proc.fresh [(0, [none]), (0, [none])])
+      [(0, .add ⟨[97], none, none⟩ ⟨[100, 101, 47, 97], none, some [100, 101]⟩ false
+          (.ents 6 [⟨.str [97], false, 2, 1, 0⟩, ⟨.str [98], false, 2, 2, 0⟩, ⟨.str [99], false, 1, 3, 0⟩])),
+       (1, .add ⟨[98], none, none⟩ ⟨[100, 101, 47, 98], none, some [100, 101]⟩ false (.ents 6 [⟨.str [97], false, 3, 1, 0⟩])),
+       (0, .add ⟨[97], none, none⟩ ⟨[100, 101, 47, 97], none, some [100, 101]⟩ false
+          (.ents 6 [⟨.str [97], false, 2, 1, 0⟩, ⟨.str [98], false, 2, 2, 0⟩, ⟨.str [99], false, 1, 3, 0⟩]))] with
+    | .ok (p, _) =>
+      p.memo == .empty &&
+      (p.comparers.map (fun l => (ObsM.getCount l.own.summary (some [100, 101]) .missing,
+                                   ObsM.getCount l.own.summary (some [100, 101]) .missing_w))) == [(6, 10), (1, 3)]
+    | .error _ => false) = true := by decide +kernel
+
+/-- why "both calls return" (`h0`, `h1`) are hypotheses: whether `Tree.__getitem__` raises depends on the details tree.  From a
+    degenerate tree (a branch with an empty key — not reachable from `Proc.fresh`, C10's `Obs.run_ok`) the call raises
+    `UnboundLocalError`, from the fresh state with the same configuration it returns. -/
+example :
+    let f : ObsM.File := ⟨[100, 101, 47, 97], none, some [100, 101]⟩
+    let l0 := ObsM.ObsList.init 0 [ObsM.Obs.init 0 none]
+    let l1 : ObsM.ObsList := { l0 with own := { l0.own with details := .node [([], TreeM.Tree.empty)] none } }
+    (l0.filters = l1.filters ∧ l0.own.filter = l1.own.filter) ∧
+    (match Sess.runJob default l0 (.remove f f false), Sess.runJob default l1 (.remove f f false) with
+      | .ok _, .error _ => true
+      | _, _ => false) = true := by
+  refine ⟨⟨rfl, rfl⟩, ?_⟩
+  decide +kernel
 
 /-! ### (E) `KeyedTuple.__contains__` / `__getitem__` for every kind of argument -/
 
